@@ -919,7 +919,17 @@ def _minmax(eng, is_max, args, kwargs):
     if len(args) == 1:
         it = make_iter(eng, args[0])
         if it.concrete is None:
-            raise EngineError('min/max over symbolic sequence')
+            # assumed contract of max/min over a (non-empty) sequence: a bound that is attained
+            eng.maybe_raise(_int(it.n) > 0, 'ValueError')
+            probe = eng.num(it.get(z3.Int('probe!')))
+            real = _is_real(probe)
+            m = eng.fresh(TReal if real else TInt, 'mx' if is_max else 'mn')
+            i = z3.FreshInt('mi')
+            w = eng.fresh(TInt, 'mw')
+            xi = eng.num(it.get(i))
+            eng.assume(z3.ForAll([i], z3.Implies(z3.And(0 <= i, i < _int(it.n)), (xi <= m) if is_max else (xi >= m))))
+            eng.assume(z3.And(0 <= w, w < _int(it.n), eng.num(it.get(w)) == m))
+            return SV(TReal if real else TInt, m)
         vals = it.concrete
         if not vals:
             if 'default' in kwargs:
